@@ -2,7 +2,7 @@
 From Coq Require Import List NArith Bool Arith Lia ZifyBool ZifyN ZifyNat.
 From Dae.gen Require Import C06_Extracted.
 From Dae Require Import C06_Spec C06_Model C06_Async C06_Session C06_Clock C06_Key C06_HttpVar C06_Statements.
-From Dae Require Export C06_ProofsCarried C06_ProofsOob C06_ProofsTls C06_ProofsChunk C06_ProofsHttp C06_ProofsQuic C06_ProofsAsync C06_ProofsSession C06_ProofsClock C06_ProofsKey.
+From Dae Require Export C06_ProofsCarried C06_ProofsOob C06_ProofsTls C06_ProofsChunk C06_ProofsHttp C06_ProofsQuic C06_ProofsAsync C06_ProofsSession C06_ProofsClock C06_ProofsKey C06_ProofsDecrypt.
 Import ListNotations.
 Open Scope N_scope.
 
